@@ -28,6 +28,7 @@ func init() {
 		Stub:           []string{"rogue servers (harness, holding the server's real key)", "TCP/UDP (simulated fabric)"},
 		Assumptions:    []string{"a stalled connection ends after a finite simulated time (the client has no read deadline of its own; an endless stall only blocks that one sync goroutine and, by design of the thread group, Close())"},
 		RequiredProbes: []string{"c11.rogue.short", "c11.rogue.signed-short", "c11.rogue.bans", "c11.rogue.many-entries", "c11.rogue.bad-loclen", "c11.all-failed-round", "c11.all-banned", "c11.restart", "c11.liveness-checked", "c11.flaky"},
+		RequiredSites:  []string{"send.wake", "csync.wake", "csync.start"},
 	})
 }
 
@@ -203,6 +204,7 @@ func runC11(m *Sim) {
 				bannedFile[k] = true
 			}
 		}
+		m.NoteState(len(st.Servers), len(bannedState), len(bannedFile), RoleOf(st.PrimaryServer))
 	}
 
 	if err := cl.Start(); err != nil {
